@@ -466,6 +466,9 @@ class ConfigParser(object):
       for section in cp.sections():
         for key in cp.options(section):
           cp.get(section, key)
+      # ([Variables] is the default section, which sections() leaves out)
+      for key in cp.defaults():
+        cp.get(cp.default_section, key)
     except configparser.InterpolationError as e:
       raise ConfigParserException("Could not resolve placeholder: {}".format(e.message))
 
